@@ -386,7 +386,21 @@ func (rt *Runtime) validator(ctx context.Context, database, username, password s
 // userStatements / userPortals are what an application's own cache types look
 // like: they embed the default implementations (and so inherit Close).
 type userStatements struct{ *wire.DefaultStatementCache }
-type userPortals struct{ *wire.DefaultPortalCache }
+type userPortals struct {
+	*wire.DefaultPortalCache
+	rt *Runtime
+}
+
+// Bind is a user callback like any other: what it is handed (the parameter
+// slice and the value bytes in it) may be kept by the application's cache.
+func (u *userPortals) Bind(ctx context.Context, name string, stmt *wire.Statement, params []wire.Parameter, formats []wire.FormatCode) error {
+	if u.rt != nil {
+		c := u.rt.connOf(ctx)
+		c.checkRetained("portal cache Bind")
+		c.retainParams(params)
+	}
+	return u.DefaultPortalCache.Bind(ctx, name, stmt, params, formats)
+}
 
 func (rt *Runtime) buildServer() (*wire.Server, error) {
 	cfg := &rt.C.Server
@@ -461,7 +475,7 @@ func (rt *Runtime) buildServer() (*wire.Server, error) {
 	}
 	if cfg.UserCaches {
 		opts = append(opts, wire.Statements(func() wire.StatementCache { return &userStatements{&wire.DefaultStatementCache{}} }),
-			wire.Portals(func() wire.PortalCache { return &userPortals{&wire.DefaultPortalCache{}} }))
+			wire.Portals(func() wire.PortalCache { return &userPortals{DefaultPortalCache: &wire.DefaultPortalCache{}, rt: rt} }))
 	}
 	var lateTLS func(*wire.Server)
 	if cfg.TLS != "" {
